@@ -2,11 +2,11 @@
 //! fault rates the per-run swarm draws from) and the number of runs per tier.
 use crate::driver::Mix;
 
-// families: [Setup, Random, Sparse, TrapDense, Goal, Cage, Library, Blocked, Edge, PushPull, TrapCluster, Motif, Mobility, Jam, Confront]
+// families: [Setup, Random, Sparse, TrapDense, Goal, Cage, Library, Blocked, Edge, PushPull, TrapCluster, Motif, Mobility, Jam, Confront, Elimination]
 // policies: [Uniform, PassHappy, Shuffler, Pusher, TrapSeeker, RabbitRunner, PassEarly, Rotator, Shuttler, Repeater]
 pub fn mix_for(prop: u32) -> Mix {
     let general = Mix {
-        families: [1, 6, 1, 3, 1, 0, 1, 2, 3, 3, 1, 2, 1, 2, 2],
+        families: [1, 6, 1, 3, 1, 0, 1, 2, 3, 3, 1, 2, 1, 2, 2, 1],
         policies: [3, 1, 1, 3, 1, 1, 0, 2, 1, 1],
         caps: &[40, 150, 600],
         fan: &[0.0, 0.05, 0.3],
@@ -17,22 +17,22 @@ pub fn mix_for(prop: u32) -> Mix {
         dfs: &[0.0, 0.0, 0.002, 0.006],
     };
     match prop {
-        1 => Mix { families: [1, 6, 1, 3, 1, 0, 1, 2, 3, 3, 2, 4, 1, 2, 4], fan2: &[0.0, 0.02, 0.05], ..general },
-        2 => Mix { families: [1, 3, 1, 7, 1, 0, 1, 1, 1, 3, 3, 2, 0, 2, 1], policies: [2, 1, 0, 3, 4, 0, 0, 4, 1, 1], ..general },
-        3 => Mix { families: [2, 3, 2, 1, 1, 1, 1, 1, 3, 3, 1, 1, 0, 2, 0], policies: [2, 5, 1, 1, 1, 1, 1, 1, 2, 1], caps: &[40, 150, 600, 3000], ..general },
-        4 => Mix { dfs: &[0.0, 0.002], families: [0, 1, 2, 1, 9, 2, 1, 2, 1, 0, 0, 0, 0, 3, 0], policies: [2, 1, 1, 1, 2, 4, 1, 1, 2, 2], caps: &[6, 40, 150, 600], fan: &[0.0, 0.05], fan2: &[0.0, 0.02], ..general },
-        5 | 6 => Mix { dfs: &[0.0, 0.001], families: [0, 1, 8, 0, 0, 2, 1, 1, 0, 0, 0, 0, 1, 1, 0], policies: [1, 2, 6, 0, 0, 0, 3, 1, 4, 5], caps: &[150, 600, 3000], fan: &[0.0, 0.02], fan2: &[0.0], ..general },
-        7 => Mix { dfs: &[0.0, 0.001], families: [1, 1, 5, 0, 1, 4, 1, 3, 0, 0, 0, 0, 0, 3, 0], policies: [1, 2, 5, 0, 0, 0, 4, 1, 4, 5], caps: &[150, 600, 3000], fan: &[0.0, 0.02], fan2: &[0.0, 0.01], ..general },
-        8 => Mix { families: [2, 3, 4, 3, 0, 1, 1, 0, 3, 3, 1, 2, 0, 2, 1], policies: [3, 2, 3, 1, 3, 0, 1, 2, 2, 2], fan2: &[0.0, 0.03, 0.06], fork: &[0.02, 0.1, 0.3], ..general },
-        9 => Mix { dfs: &[0.0], families: [1, 0, 0, 0, 0, 0, 0, 0, 0, 0, 0, 0, 0, 0, 0], caps: &[33, 40], fan: &[0.0, 0.3, 1.0], fan2: &[0.0], rt: &[0.0, 0.05], restart: &[0.0], fork: &[0.0, 0.05], ..general },
-        10 => Mix { families: [3, 6, 1, 3, 1, 0, 1, 2, 3, 3, 1, 2, 0, 2, 1], ..general },
-        11 => Mix { families: [0, 4, 2, 2, 2, 1, 1, 5, 5, 2, 1, 1, 1, 5, 2], ..general },
-        12 => Mix { families: [1, 6, 1, 3, 1, 0, 1, 2, 3, 3, 1, 2, 1, 2, 4], policies: [2, 1, 0, 6, 1, 0, 0, 2, 1, 1], fan2: &[0.0, 0.02, 0.05], ..general },
-        13 => Mix { families: [1, 3, 0, 8, 1, 0, 1, 0, 1, 3, 3, 2, 0, 2, 3], policies: [2, 0, 0, 3, 4, 0, 0, 4, 1, 1], caps: &[40, 150], fan: &[1.0], fan2: &[0.0, 0.01], ..general },
+        1 => Mix { families: [1, 6, 1, 3, 1, 0, 1, 2, 3, 3, 2, 4, 1, 2, 4, 1], fan2: &[0.0, 0.02, 0.05], ..general },
+        2 => Mix { families: [1, 3, 1, 7, 1, 0, 1, 1, 1, 3, 3, 2, 0, 2, 1, 2], policies: [2, 1, 0, 3, 4, 0, 0, 4, 1, 1], ..general },
+        3 => Mix { families: [2, 3, 2, 1, 1, 1, 1, 1, 3, 3, 1, 1, 0, 2, 0, 2], policies: [2, 5, 1, 1, 1, 1, 1, 1, 2, 1], caps: &[40, 150, 600, 3000], ..general },
+        4 => Mix { dfs: &[0.0, 0.002], families: [0, 1, 2, 1, 9, 2, 1, 2, 1, 0, 0, 0, 0, 3, 0, 2], policies: [2, 1, 1, 1, 2, 4, 1, 1, 2, 2], caps: &[6, 40, 150, 600], fan: &[0.0, 0.05], fan2: &[0.0, 0.02], ..general },
+        5 | 6 => Mix { dfs: &[0.0, 0.001], families: [0, 1, 8, 0, 0, 2, 1, 1, 0, 0, 0, 0, 1, 1, 0, 1], policies: [1, 2, 6, 0, 0, 0, 3, 1, 4, 5], caps: &[150, 600, 3000], fan: &[0.0, 0.02], fan2: &[0.0], ..general },
+        7 => Mix { dfs: &[0.0, 0.001], families: [1, 1, 5, 0, 1, 4, 1, 3, 0, 0, 0, 0, 0, 3, 0, 2], policies: [1, 2, 5, 0, 0, 0, 4, 1, 4, 5], caps: &[150, 600, 3000], fan: &[0.0, 0.02], fan2: &[0.0, 0.01], ..general },
+        8 => Mix { families: [2, 3, 4, 3, 0, 1, 1, 0, 3, 3, 1, 2, 0, 2, 1, 1], policies: [3, 2, 3, 1, 3, 0, 1, 2, 2, 2], fan2: &[0.0, 0.03, 0.06], fork: &[0.02, 0.1, 0.3], ..general },
+        9 => Mix { dfs: &[0.0], families: [1, 0, 0, 0, 0, 0, 0, 0, 0, 0, 0, 0, 0, 0, 0, 0], caps: &[33, 40], fan: &[0.0, 0.3, 1.0], fan2: &[0.0], rt: &[0.0, 0.05], restart: &[0.0], fork: &[0.0, 0.05], ..general },
+        10 => Mix { families: [3, 6, 1, 3, 1, 0, 1, 2, 3, 3, 1, 2, 0, 2, 1, 1], ..general },
+        11 => Mix { families: [0, 4, 2, 2, 2, 1, 1, 5, 5, 2, 1, 1, 1, 5, 2, 1], ..general },
+        12 => Mix { families: [1, 6, 1, 3, 1, 0, 1, 2, 3, 3, 1, 2, 1, 2, 4, 1], policies: [2, 1, 0, 6, 1, 0, 0, 2, 1, 1], fan2: &[0.0, 0.02, 0.05], ..general },
+        13 => Mix { families: [1, 3, 0, 8, 1, 0, 1, 0, 1, 3, 3, 2, 0, 2, 3, 3], policies: [2, 0, 0, 3, 4, 0, 0, 4, 1, 1], caps: &[40, 150], fan: &[1.0], fan2: &[0.0, 0.01], ..general },
         14 => Mix { fan: &[0.05, 0.3, 1.0], restart: &[0.0, 0.05, 0.2], fork: &[0.0, 0.05, 0.3], ..general },
-        15 => Mix { families: [2, 4, 1, 2, 1, 0, 1, 1, 3, 3, 1, 1, 0, 2, 1], rt: &[1.0], restart: &[0.02, 0.1], fan: &[0.0], fan2: &[0.0], caps: &[40, 150], ..general },
-        16 => Mix { families: [2, 4, 1, 2, 1, 0, 1, 1, 3, 3, 1, 1, 0, 2, 1], fan: &[0.0, 0.3], ..general },
-        19 => Mix { families: [2, 4, 2, 3, 2, 1, 1, 2, 3, 3, 1, 2, 3, 2, 1], policies: [3, 1, 1, 2, 1, 1, 1, 2, 1, 1], caps: &[40, 150, 600], fan: &[1.0], fan2: &[0.0, 0.02], rt: &[0.05], ..general },
+        15 => Mix { families: [2, 4, 1, 2, 1, 0, 1, 1, 3, 3, 1, 1, 0, 2, 1, 1], rt: &[1.0], restart: &[0.02, 0.1], fan: &[0.0], fan2: &[0.0], caps: &[40, 150], ..general },
+        16 => Mix { families: [2, 4, 1, 2, 1, 0, 1, 1, 3, 3, 1, 1, 0, 2, 1, 1], fan: &[0.0, 0.3], ..general },
+        19 => Mix { families: [2, 4, 2, 3, 2, 1, 1, 2, 3, 3, 1, 2, 3, 2, 1, 1], policies: [3, 1, 1, 2, 1, 1, 1, 2, 1, 1], caps: &[40, 150, 600], fan: &[1.0], fan2: &[0.0, 0.02], rt: &[0.05], ..general },
         _ => general,
     }
 }
